@@ -253,6 +253,14 @@ pub(crate) fn family(name: &str) -> Vec<TxT> {
                 &BOB,
                 vec![rollup_data(r2(), 0), transfer(&ALICE, 1, n(), other_asset())],
             ),
+            // an IBC relay that fails at execution is a *non-fatal* failure after Blackburn: the
+            // transaction stays in the block with an error code and must leave no trace
+            tx("bad-ibc-relay", &IBC_SUDO, vec![Action::Ibc(crate::app::tests_app::bad_ibc_relay())]),
+            tx(
+                "bundle-transfer-then-bad-ibc-relay",
+                &IBC_SUDO,
+                vec![transfer(&BOB, 11, n(), n()), Action::Ibc(crate::app::tests_app::bad_ibc_relay())],
+            ),
             tx("fee-transfer-max", &SUDO, vec![fee_change_transfer(u128::MAX - 1, 0)]),
             tx("fee-data-mult-max", &SUDO, vec![fee_change_rollup_data(1, u128::MAX)]),
             tx("fee-transfer-5", &SUDO, vec![fee_change_transfer(5, 0)]),
